@@ -6,6 +6,7 @@ import MD.Model.Config
 import MD.Model.IsoFit
 import MD.Model.Decompose
 import MD.Model.PD
+import MD.Model.Validate
 /-! JSON-lines driver: one request per line on stdin, one response per line on stdout. -/
 open Lean MD
 
@@ -319,6 +320,23 @@ def handle (j : Json) : Except String Json := do
           | .num n => some n.mantissa.toNat | _ => none))
       | _ => none
     pure (Json.mkObj [("pd", ratsToJson (partialDependence (predFamily a b c jj k) X jj grid w sub))])
+  | "validate" =>
+    let ep ← match (← getStr j "ep") with
+      | "ident" => pure Val.EP.ident | "bias" => pure Val.EP.bias | "marginal" => pure Val.EP.marginal
+      | "decompose" => pure Val.EP.decompose | "scoreCtor" => pure Val.EP.scoreCtor
+      | "scoreCall" => pure Val.EP.scoreCall | "iso" => pure Val.EP.iso | "isoModel" => pure Val.EP.isoModel
+      | "plotReliability" => pure Val.EP.plotReliability | "plotMurphy" => pure Val.EP.plotMurphy
+      | "plotBias" => pure Val.EP.plotBias
+      | _ => throw "bad ep"
+    let fd ← match (← getStr j "f") with
+      | "mean" => pure Val.FD.mean | "median" => pure Val.FD.median | "expectile" => pure Val.FD.expectile
+      | "quantile" => pure Val.FD.quantile | _ => pure Val.FD.unknown
+    let d : Val.Desc := ⟨ep, ← getBool j "lenMismatch", ← getBool j "hasFeature", ← getBool j "featLenMismatch",
+      ← getBool j "binMethodValid", ← getBool j "nBinsOk", ← getBool j "hasWeights", ← getBool j "wLenMismatch",
+      ← getBool j "wNdim2", ← getBool j "wNonPositive", fd, ← getBool j "levelValid"⟩
+    let o := match Val.outcome d with
+      | .ok => "ok" | .valueError => "ValueError" | .notImplemented => "NotImplementedError" | .exception => "exception"
+    pure (Json.mkObj [("outcome", .str o), ("violates", .bool (Val.violates d))])
   | "format_integer" =>
     let n ← getNat j "n"
     pure (Json.mkObj [("s", .str (formatInteger n))])
